@@ -129,6 +129,9 @@ func c12(tier string) []*explore.Scenario {
 		out = append(out, c12SeqT(si, 1, maxLen, 1, true))
 	}
 	out = append(out, c12Interference(1), c12MethodNames(), c12MethodGrammar())
+	for _, end := range []string{"stop", "write-fails", "read-fails"} {
+		out = append(out, c12ResetsUnread(end, 2))
+	}
 	for _, where := range []string{"fresh-id", "open-stream", "half-closed-stream"} {
 		out = append(out, c12Product(where, 1))
 	}
@@ -648,6 +651,68 @@ func c12MethodNames() *explore.Scenario {
 			vsched.Quiesce()
 			if !d.ServeDone {
 				vsched.Fail(fam+"|serve-hang", "after a request for method %q: Serve did not return when the transport closed", m)
+			}
+		},
+	}
+}
+
+// c12ResetsUnread: the peer sends bodies for streams the server does not know
+// and does NOT read the server's answers, so the resets queue up behind a
+// writer that is stuck in the transport; then the connection ends. No crash
+// (a second connection of the same Server keeps working), Serve returns.
+func c12ResetsUnread(end string, bound int) *explore.Scenario {
+	fam := "C12/hostile"
+	return &explore.Scenario{
+		Name: "C12/resets-unread/end=" + end, Family: fam, Prop: "C12", Bound: bound,
+		Run: func() {
+			w := env.NewWorld()
+			d := env.NewDirect(w, env.DirectOpts{Pipe: env.PipeOpts{Cap: 0}, NoClient: true})
+			p2 := env.NewPipe(d.Tap, env.PipeOpts{Name: "w2", Cap: 16})
+			s2 := false
+			vsched.GoNamed("serve2", func() { d.Srv.Serve(context.Background(), p2.B); s2 = true })
+			vsched.GoNamed("peer2-reader", func() {
+				for {
+					if _, err := p2.A.Read(context.Background()); err != nil {
+						return
+					}
+				}
+			})
+			vsched.Settle()
+			vsched.Explore(true)
+			vsched.GoNamed("peer", func() {
+				for id := uint64(5); id <= 7; id++ {
+					if d.Pipe.A.Inject(env.ReqBody(id, env.MBidi, "x")) != nil {
+						return
+					}
+				}
+			})
+			vsched.Quiesce() // nobody reads the server's side: its writer is stuck on the first reset
+			switch end {
+			case "stop":
+				// (Stop would end the other connection too: use the first connection's own context)
+				d.StopServe()
+				d.Pipe.B.Break()
+			case "write-fails":
+				d.Pipe.B.Break()
+			case "read-fails":
+				d.Pipe.A.Break()
+				d.Pipe.B.Break()
+			}
+			vsched.Quiesce()
+			if !d.ServeDone {
+				vsched.Fail(fam+"|serve-hang", "bodies for unknown streams whose resets nobody read, then the connection ended (%s): Serve did not return; threads: %s", end, threadList())
+			}
+			pu := w.Rec("probe-u", "Unary")
+			p2.A.Inject(env.ReqUnary(100, "probe-u", "x"))
+			vsched.Quiesce()
+			if pu.HStarts != 1 {
+				vsched.Fail(fam+"|probe-unary", "after the first connection ended (%s) a valid request on a second connection of the same Server was not served", end)
+			}
+			p2.A.Break()
+			p2.B.Break()
+			vsched.Quiesce()
+			if !s2 {
+				vsched.Fail(fam+"|serve-hang", "the second connection's Serve did not return")
 			}
 		},
 	}
